@@ -551,7 +551,7 @@ func (sim *c22Sim) header() string {
 const c22Rule = "n in 4..7 voters (real ed25519 keys), f <= floor((n-1)/3) Byzantine, tree of 3-9 blocks with forks, per honest voter a real Service with its own block state and best block; " +
 	"schedule of 20-200 rapid-drawn events: honest voter performs its next step (initiateRound / pre-vote / pre-commit when a pre-vote supermajority is seen / attemptToFinalize+commit, as finalisation.go), " +
 	"sync (deliver all new messages to one voter, optionally lossy), deliver or duplicate one message of any age, Byzantine vote (any stage/block/round, to any subset, also with a forged authority id), " +
-	"Byzantine commit (any target/round, any subset of the pre-commit signatures on the network + fresh own ones + forged / duplicated entries, to any subset), best-block change, tick (all step + all sync); at most 3 rounds. " +
+	"Byzantine commit (any target/round, any subset of the pre-commit signatures on the network + fresh own ones + forged / duplicated entries, to any subset), Byzantine storm (votes for each voter's own best block, optionally forged ones for all others), best-block change, tick (all step + all sync); at most 3 rounds. " +
 	"Oracle: all SetFinalisedHash blocks of all honest voters pairwise on one chain. Non-trivial = a non-genesis block was finalised and a Byzantine equivocation or a lost message occurred; distinct by (n, Byzantine set, tree, best blocks, event list)."
 
 func c22Subset(t *rapid.T, sim *c22Sim, label string) uint32 {
@@ -634,19 +634,19 @@ func c22Schedule(t *rapid.T, gate bool) *c22Sim {
 	events := rapid.IntRange(20, 200).Draw(t, "events")
 	for e := 0; e < events && sim.violation == ""; e++ {
 		k := rapid.IntRange(0, 99).Draw(t, "event")
-		if len(byz) == 0 && k >= 70 && k < 92 {
+		if len(byz) == 0 && k >= 64 && k < 92 {
 			k = 0
 		}
 		switch {
-		case k < 30:
+		case k < 28:
 			v := pickHonest("stepper")
 			sim.logf("step k%d", v.key)
 			sim.step(v)
-		case k < 58:
+		case k < 54:
 			v := pickHonest("receiver")
 			sim.logf("sync k%d", v.key)
 			sim.sync(v, lossy())
-		case k < 70:
+		case k < 64:
 			if len(sim.pool) == 0 {
 				continue
 			}
@@ -654,7 +654,7 @@ func c22Schedule(t *rapid.T, gate bool) *c22Sim {
 			mi := rapid.IntRange(0, len(sim.pool)-1).Draw(t, "message")
 			sim.logf("deliver k%d <- m%d(%s)", v.key, mi, sim.pool[mi].descr)
 			sim.deliver(v, mi)
-		case k < 84:
+		case k < 76:
 			b := byz[rapid.IntRange(0, len(byz)-1).Draw(t, "byz")]
 			stage := rapid.SampledFrom([]Subround{prevote, prevote, prevote, prevote, precommit, precommit, precommit, precommit, primaryProposal}).Draw(t, "stage")
 			blk := pickBlock("byzBlock")
@@ -671,7 +671,7 @@ func c22Schedule(t *rapid.T, gate bool) *c22Sim {
 					sim.deliver(sim.voters[h], mi)
 				}
 			}
-		case k < 92:
+		case k < 84:
 			b := byz[rapid.IntRange(0, len(byz)-1).Draw(t, "byz")]
 			round := pickRound()
 			target := rapid.IntRange(0, tree.size()-1).Draw(t, "target")
@@ -730,7 +730,51 @@ func c22Schedule(t *rapid.T, gate bool) *c22Sim {
 					sim.deliver(sim.voters[h], mi)
 				}
 			}
-		case k < 95:
+		case k < 92:
+			// storm: every Byzantine voter tells one honest voter what would suit it - votes of the
+			// voter's current round for one block (mostly the voter's own best block or pre-vote),
+			// optionally also forged votes in the name of all other voters
+			targets := []*c22Voter{pickHonest("stormTarget")}
+			if rapid.Bool().Draw(t, "stormAll") {
+				targets = targets[:0]
+				for _, h := range sim.honest {
+					targets = append(targets, sim.voters[h])
+				}
+			}
+			mode := rapid.IntRange(0, 3).Draw(t, "stormBlock")
+			drawn := pickBlock("stormBlk")
+			up := rapid.IntRange(0, 2).Draw(t, "stormUp")
+			stages := [][]Subround{{prevote}, {precommit}, {prevote, precommit}}[rapid.IntRange(0, 2).Draw(t, "stormStages")]
+			forge := rapid.IntRange(0, 4).Draw(t, "stormForge") == 0
+			for _, v := range targets {
+				blk := v.env.bs.best // modes 2, 3: the voter's own best block
+				switch mode {
+				case 0:
+					blk = drawn
+				case 1: // a block between the voter's finalised head and its best block
+					if anc := int(tree.number[blk]) - int(tree.number[v.env.bs.finalHead]); anc > up { //nolint:gosec
+						blk = tree.ancestorAt(blk, tree.number[blk]-uint(up)) //nolint:gosec
+					}
+				}
+				round := v.env.svc.state.round
+				if round == 0 {
+					round = 1
+				}
+				sim.logf("storm on k%d: b%d r%d stages=%v forge=%v", v.key, blk, round, stages, forge)
+				for _, st := range stages {
+					for _, b := range byz {
+						sim.deliver(v, sim.byzVote(b, st, blk, round, 1<<uint(v.key), b))
+					}
+					if forge {
+						for _, h := range sim.honest {
+							if h != v.key {
+								sim.deliver(v, sim.byzVote(byz[0], st, blk, round, 1<<uint(v.key), h))
+							}
+						}
+					}
+				}
+			}
+		case k < 94:
 			v := pickHonest("reorg")
 			desc := tree.subtree(v.env.bs.finalHead)
 			nb := desc[rapid.IntRange(0, len(desc)-1).Draw(t, "newBest")]
